@@ -126,11 +126,11 @@ def _gen_stmt(tp, feat, r, routines, n_clocks):
             return ['tempo', c, tp.choice(TEMPOS)]
         if k == 1:
             return ['beats', c, tp.choice([-1, -0.5, 0.5, 1, 2])]
-        if routines[r]['clock'] == f't{c}':
+        if routines[r]['clock'] == f't{c}' or tp.draw(4) == 0:
             return ['bpb', c, tp.choice([2, 3, 4, 5, 7])]
         return ['tempo', c, tp.choice(TEMPOS)]
     if feat.get('grid') and x < 19 and n_clocks:
-        q = tp.choice([0, 1, 2, 4, 0.5, 3, 1.5])
+        q = tp.choice([0, 1, 2, 4, 0.5, 3, 1.5, 1, 2, -1])
         p = tp.choice([0, 0.25, -0.25, 0.5, -0.5, 1, -1, 1.5, -2.5])
         if q and abs(p) >= q:
             p = 0
@@ -299,6 +299,7 @@ class Interp:
             self.trace.append({
                 'ev': 'rec', 'r': rid, 'k': k,
                 'secs': clock.seconds, 'beats': clock.beats,
+                'tempo': getattr(clock, '_tempo', None),
                 'cur_secs': cur._seconds, 'cur_is_self': cur is rout,
                 'clock_ok': clock is self.clocks[
                     self.prog['routines'][rid]['clock']],
@@ -308,8 +309,11 @@ class Interp:
             cdef = self.prog['routines'][cid]
             r = self.make(cid)
             q = cdef['quant']
+            cc = self.clocks[cdef['clock']]
             self.trace.append({'ev': 'spawn', 'r': rid, 'child': cid,
                                'secs': main.current_tt._seconds,
+                               'ref': cc.beats,
+                               'bbb': getattr(cc, '_base_bar_beat', None),
                                'now': self.now()})
             r.play(self.clocks[cdef['clock']],
                    None if q is None else (q if q == 0 else tuple(q)))
@@ -330,16 +334,31 @@ class Interp:
                       lambda: self.addr.send_bundle(st[1], *els))
         elif op == 'tempo':
             c = self.clocks[f't{st[1]}']
+            b0, s0 = c.beats, c.seconds
             c.tempo = st[2]
-            self.event('tempo', rid, st[1], st[2])
+            b1 = c.beats
+            self.event('tempo', rid, st[1], st[2],
+                       {'b0': b0, 's0': s0, 'b1': b1, 's1': c.beats2secs(b1),
+                        'tempo': c.tempo, 'beat_dur': c.beat_dur})
         elif op == 'beats':
             c = self.clocks[f't{st[1]}']
-            c.beats = c.beats + st[2]
-            self.event('beats', rid, st[1], st[2])
+            b0, s0 = c.beats, c.seconds
+            c.beats = b0 + st[2]
+            b1 = c.beats
+            self.event('beats', rid, st[1], st[2],
+                       {'b0': b0, 's0': s0, 'b1': b1, 's1': c.beats2secs(b1)})
         elif op == 'bpb':
             c = self.clocks[f't{st[1]}']
-            c.beats_per_bar = st[2]
-            self.event('bpb', rid, st[1], st[2])
+            own = clock is c
+            try:
+                c.beats_per_bar = st[2]
+                err = None
+            except Exception as e:
+                err = type(e).__name__
+            self.event('bpb', rid, st[1], st[2],
+                       {'own': own, 'err': err, 'beats': c.beats,
+                        'bbb': c.base_bar_beat, 'base_bar': c.base_bar,
+                        'bpb': c.beats_per_bar})
         elif op == 'seed':
             rout.rand_seed = st[1]
         elif op == 'draw':
@@ -383,7 +402,7 @@ class Interp:
         out['next_bar'] = c.next_bar()
         out['bar'] = c.bar()
         out['beat_in_bar'] = c.beat_in_bar()
-        out['ttnb'] = c.time_to_next_beat(q if q else 1)
+        out['ttnb'] = c.time_to_next_beat(q if q > 0 else 1)
         x = out['beats']
         out['rt_secs'] = c.secs2beats(c.beats2secs(x))
         out['rt_bars'] = c.bars2beats(c.beats2bars(x))
@@ -485,8 +504,8 @@ class MClock:
         return g, alt
 
     def set_bpb(self, beats_now, v):
-        self.base_bar = float(round(
-            (beats_now - self.bbb) / self.bpb + self.base_bar))
+        self.base_bar = float(math.floor(
+            (beats_now - self.bbb) / self.bpb + self.base_bar + 0.5))
         self.bbb = beats_now
         self.bpb = float(v)
 
@@ -621,8 +640,9 @@ class Model:
                 mc.set_beats(secs, mc.s2b(secs) + st[2])
                 self.events.append(('beats', rid, st[1], secs))
             elif op == 'bpb':
-                mc = self.clocks[f't{st[1]}']
-                mc.set_bpb(mc.s2b(secs), st[2])
+                if cname == f't{st[1]}':      # refused from anywhere else
+                    mc = self.clocks[cname]
+                    mc.set_bpb(mc.s2b(secs), st[2])
             elif op in ('msg', 'bundle'):
                 self.events.append(('send', rid, secs, st))
             else:
